@@ -1,6 +1,6 @@
 """assignment / storage kernels (C05, C02)."""
 from vxlib import Inst, CORE_TUS, FMT_STUBS, CTX_STUBS, CONTAINER_STUBS, EMPTY_DECL_UNWIND
-K = {"n": "K_NOTYPE", "b": "K_BOOLEAN", "i": "K_INTEGER", "d": "K_NUMERIC", "s": "K_LITERAL"}
+K = {"n": "K_NOTYPE", "b": "K_BOOLEAN", "i": "K_INTEGER", "d": "K_NUMERIC", "s": "K_LITERAL", "T": "K_TABI"}
 def instances():
     out = []
     for s in "nbids":
@@ -10,6 +10,16 @@ def instances():
                             defs=["VX_SK=%s" % K[s], "VX_DK=%s" % K[d]], stubs=FMT_STUBS + CTX_STUBS + CONTAINER_STUBS, unwind=3, unwindset=EMPTY_DECL_UNWIND,
                             timeout=300, tier="quick" if quick else "thorough",
                             bounds="scalar kinds fixed per instance; strings <= 1 byte", inputs="null flags, payloads, source is a variable or a temporary, safety and lock flags of the destination"))
+    for s, d in (("T", "i"), ("i", "T"), ("T", "T"), ("T", "s")):
+        out.append(Inst(id="store.%s_to_%s" % (s, d), props=["C05", "C02", "C01"], harness="h_store.cpp", entry="c05_store", tus=CORE_TUS,
+                        defs=["VX_SK=%s" % K[s], "VX_DK=%s" % K[d]], stubs=FMT_STUBS + CTX_STUBS + CONTAINER_STUBS, unwind=3, unwindset=EMPTY_DECL_UNWIND,
+                        timeout=300, tier="quick" if (s, d) in (("T", "i"), ("i", "T")) else "thorough",
+                        bounds="T = a (null) table of integers: same major type as an integer, one more dimension", inputs="null flags, payloads, source is a variable or a temporary, safety and lock flags of the destination"))
+    for s, d in (("T", "i"), ("i", "s"), ("i", "T")):
+        out.append(Inst(id="let.iterator.%s_into_%s" % (s, d), props=["C09", "C06", "C05", "C01"], harness="h_store.cpp", entry="c05_let_through_iterator", tus=CORE_TUS + ["blocc/statement_let.cpp", "blocc/expression_variable.cpp"],
+                        defs=["VX_SK=%s" % K[s], "VX_DK=%s" % K[d]], stubs=FMT_STUBS + CTX_STUBS + CONTAINER_STUBS, unwind=3, unwindset=EMPTY_DECL_UNWIND, timeout=300,
+                        quick_also=["C06", "C05"] if (s, d) == ("T", "i") else [], tier="quick" if (s, d) != ("i", "T") else "thorough",
+                        bounds="element of kind %s, assigned value of kind %s (T = null table of integers)" % (d, s), inputs="values, null flags, lvalue flag of the source, lock flag"))
     for k in "is":
         out.append(Inst(id="let.iterator.%s" % k, props=["C05", "C17", "C09", "C06", "C01"], harness="h_store.cpp", entry="c05_let_through_iterator", tus=CORE_TUS + ["blocc/statement_let.cpp", "blocc/expression_variable.cpp"],
                         defs=["VX_SK=%s" % K[k], "VX_DK=%s" % K[k]], stubs=FMT_STUBS + CTX_STUBS + CONTAINER_STUBS, unwind=3, unwindset=EMPTY_DECL_UNWIND, timeout=300,
